@@ -655,8 +655,9 @@ def src_threads(tier, seed):
     # per-file resources a worker derives from a path must not collide between two files handled at the same time
     pairs = [("same/mod%d.%s" % (k, ext), "unformatted") for k in range(1, 7) for ext in ("lua", "luau")] + [("same/deep.lua", "unformatted")]
     ptexts = {p_: "local   m%d   =   { %d,%d }\nlocal function f%d( a,b )\nreturn a+b\nend\n" % (i, i, i + 1, i) for i, (p_, _) in enumerate(pairs)}
-    # moderately nested (24 blocks): what a worker can format must not depend on how many workers there are
-    ptexts["same/deep.lua"] = "do\n" * 24 + "local   d   =   1\n" + "end\n" * 24
+    # moderately nested (12 blocks; the unoptimised hooked binary overflows a 2 MiB worker stack between 17 and 20):
+    # what a worker can format must not depend on how many workers there are
+    ptexts["same/deep.lua"] = "do\n" * 12 + "local   d   =   1\n" + "end\n" * 12
     plib = _expected_formats([(p_, ptexts[p_].encode(), {"syntax": "All"}) for p_, _ in pairs])
     if all(plib.get(p_) is not None for p_, _ in pairs):
         for t in range(1, 17):
